@@ -82,7 +82,7 @@ Section Collector.
             else
               match cwork w with
               | Some b => set_w s k (mkCW None (items_of b) true (cchan w) (ctoken w) (cexit w))
-              | None => if dclosed s then set_w s k (mkCW None [] false (cchan w) (ctoken w) true) else s
+              | None => if dclosed s then set_w s k (mkCW None (cemit w) false (cchan w) (ctoken w) true) else s
               end
         end
     | CCollect =>
